@@ -61,7 +61,7 @@ def r07_1(chk, P):
                     sh = F.ex[F.strip_casts(F.ex[nn]['c'][1])]['c'][1]
                     d = common.single_defs(F)
                     shn = F.ex[F.strip_casts(sh)]
-                    src = ''
+                    src = F.s(F.strip_casts(sh))         # the flag may be fetched in place: x<<vorbis_synthesis_halfrate_p(vi)
                     if shn['k'] == 'ref' and shn['decl'].get('id') in d:
                         src = F.s(d[shn['decl']['id']])
                     chk.ob('R07.1', key, 'advance-shift-is-halfrate', 'vorbis_synthesis_halfrate_p' in src, F.where(nn),
